@@ -269,6 +269,12 @@ PROPS = {
                 technique="deterministic simulation: exhaustive single-cut sweep + seeded multi-cut schedules of the parameter stream; executable reference model as oracle",
                 design_ref="DESIGN.md section 7 C15",
                 rule="strings over {a = & % + 1 NUL b f u G SP 0} of length 0-8 and 0-64, random byte strings of 65-2000 bytes with separators mixed in; decoder configurations: invalid handling x3, plusspace x2, NUL-terminates switches, %u decoding. evaluations counts every parse; distinct = distinct result signature."),
+    "C08": dict(flavor="plain", level="exploration", registered=False,
+                claim="Cost is made a simulated quantity: a compiler-inserted callback counts libhtp basic blocks (virtual CPU clock, exactly repeatable, machine independent). Each pump pattern is run along a doubling ladder of repetition counts under whole, one-byte and geometric delivery; ticks per unit of allowed work (bytes given + bytes buffered + 1 per call) must not grow along the ladder, and no single call may exceed a fixed cost per byte given or buffered.",
+                note="-O2 build without sanitizers (tick counts are per build; thresholds are ratios, plus one absolute per-call constant at 8x the measured maximum). zlib's own work is not counted (bounded by C07). Logging is off: the message list is the caller's to drain.",
+                technique="deterministic simulation with a virtual CPU clock (basic-block counter seam); pump schedules along a doubling ladder x delivery schedules",
+                design_ref="DESIGN.md section 7 C08",
+                rule="28 pump patterns (header lines distinct/same/empty/folded/LF-CR/no-colon, spaces, chunk-size lines, chunk extension, empty lines, parameters in body and query, cookies, multipart parts and near-boundary lines, Content-Encoding tokens, pipelined transactions, interim 100 responses, CR/NUL junk, unexpected body lines, long values) x {whole, 1 byte per call, geometric chunks} x k = 64..8192 (16384 thorough), all personalities. A case = one (pattern, delivery, personality) ladder; evaluations = executions of libhtp."),
     "C03": dict(flavor="san", level="exploration",
                 claim="Differential simulation: the same seeded well-formed history is delivered under two segmentations of the simulated wire and everything the statement lists is compared; exhaustive single-cut sweeps for short histories are visited by consecutive run indices, the rest is seeded sampling.",
                 note="Domain is the CRLF grammar of DESIGN.md section 4 (bare-LF traffic is exercised only under the all-input properties); log messages, connection flags and return codes are not compared.",
@@ -628,7 +634,7 @@ def main(argv):
         return 0
     if argv and argv[0] == "--setup":
         try:
-            for fl in ("san",):
+            for fl in ("san", "plain"):
                 print("built", build(fl))
         except BuildError as e:
             print("BUILD FAILED\n%s" % e)
